@@ -285,6 +285,7 @@ def run_case(ctx, case):
         monotonicity=cfg["mono"], convexity=cfg["conv"], is_cyclic=bool(cfg["cyclic"]),
         num_projection_iterations=cfg["iters"], impute_missing=True)
     layer.build((None, 1))
+    layer.keypoints_outputs()        # queried before the weights change as well as after
     layer.kernel.assign(w)
     layer.kernel.assign(layer.kernel.constraint(layer.kernel))
     out = layer.kernel.numpy()
